@@ -48,7 +48,11 @@ enum Res {
     Echo { id: u32, pid: u32, data: Vec<u8>, checksum: u64 },
 }
 
-struct TestSvc;
+/// Like cli/src/service.rs (RinkService), the service keeps state behind a mutex that is held for the whole of
+/// `handle`: a panic poisons it, so a child that is kept after a panic cannot serve later requests normally.
+struct TestSvc {
+    served: Mutex<u64>,
+}
 
 fn checksum(data: &[u8]) -> u64 {
     let mut h: u64 = 0xcbf29ce484222325;
@@ -75,10 +79,12 @@ impl Service for TestSvc {
     fn create(config: Self::Config) -> Result<Self, IoError> {
         // as cli/src/service.rs does: the limit is set when the service is created in the child
         GLOBAL.set_limit(config.limit);
-        Ok(TestSvc)
+        Ok(TestSvc { served: Mutex::new(0) })
     }
 
     fn handle(&self, request: Self::Req) -> Self::Res {
+        let mut served = self.served.lock().unwrap();
+        *served += 1;
         let pid = std::process::id();
         match request {
             Req::Add(id, a, b) => Res::Sum { id, value: a + b, pid },
